@@ -392,6 +392,19 @@ impl C06 {
 impl Monitor for C06 {
     fn after_op(&mut self, h: &mut Hist, r: &mut Reporter) {
         self.opn += 1;
+        // the trees must stay maintainable: a scan of valid, correctly chained blocks may not fail
+        // with a commitment-tree error (unless explained by known finding F1)
+        if let Some(Op::Scan { ok: false, err: Some(e), from, limit }) = h.last_op().cloned() {
+            if e.contains("CommitmentTree") || e.contains("Conflict") || e.contains("ShardTree") {
+                let kind = if e.contains("Conflict") { "insert-conflict" } else { "tree-error" };
+                let sig = if h.f1.any_tainted() {
+                    format!("C06:scan-fails-with-{kind}-after-F1-truncation")
+                } else {
+                    format!("C06:scan-fails-with-{kind}-on-valid-blocks")
+                };
+                self.viol(h, r, &sig, format!("scan({from},{limit}) failed: {e}"));
+            }
+        }
         // pure mining does not touch the wallet
         if matches!(h.last_op(), Some(Op::Mine { .. })) {
             return;
